@@ -182,15 +182,66 @@ func ruleSelectLogsCleanup(r *Run) {
 			def, effs, mc = d, e, m
 		}
 	}
-	if def == nil {
-		o.Fail(r.pos(fn.Pos()), "no deferred cleanup that closes the opened readers")
-		return
-	}
 	good := true
-	if !instrDominates(def, firstGo) {
-		good = false
-		o.Fail(r.pos(def.Pos()), "the cleanup is registered after goroutines may already have opened readers")
+	explicit := false
+	var defPos token.Pos
+	if def == nil {
+		// no deferred cleanup: an explicit one must run on every failure exit after the goroutines were
+		// started, and on no successful exit (the readers then belong to the merged iterator)
+		var cleanup *ssa.Call
+		for _, c := range callsIn(fn) {
+			call, ok := c.(*ssa.Call)
+			if !ok {
+				continue
+			}
+			h := staticCallee(call)
+			if h == nil || h.Blocks == nil || h.Pkg != fn.Pkg {
+				continue
+			}
+			for _, e := range closeEffects(h, nil, 0) {
+				if e.Loop && e.Param >= 0 {
+					cleanup, effs = call, []closeEffect{e}
+					effs[0].OnError = true
+				}
+			}
+		}
+		if cleanup == nil {
+			o.Fail(r.pos(fn.Pos()), "no cleanup (deferred, or explicit on the failure exits) that closes the opened readers")
+			return
+		}
+		explicit = true
+		defPos = cleanup.Pos()
+		for _, ret := range returnsOf(fn) {
+			if len(ret.Results) == 0 || !blockReaches(firstGo.Block(), ret.Block()) {
+				continue
+			}
+			last := ret.Results[len(ret.Results)-1]
+			isFail, isOK := false, false
+			for _, lv := range phiLeaves(last) {
+				if isNilConst(lv) {
+					isOK = true
+				} else {
+					isFail = true
+				}
+			}
+			dom := instrDominates(cleanup, ret)
+			if isFail && !dom {
+				good = false
+				o.Fail(r.pos(ret.Pos()), "a failure exit after the goroutines were started does not pass through the cleanup: the readers opened so far leak")
+			}
+			if isOK && !isFail && dom {
+				good = false
+				o.Fail(r.pos(ret.Pos()), "the cleanup also runs on the successful exit (the readers belong to the merged iterator then)")
+			}
+		}
+	} else {
+		defPos = def.Pos()
+		if !instrDominates(def, firstGo) {
+			good = false
+			o.Fail(r.pos(def.Pos()), "the cleanup is registered after goroutines may already have opened readers")
+		}
 	}
+	_ = explicit
 	var loopEff *closeEffect
 	for i := range effs {
 		if effs[i].Loop {
@@ -199,11 +250,11 @@ func ruleSelectLogsCleanup(r *Run) {
 	}
 	if loopEff == nil {
 		good = false
-		o.Fail(r.pos(def.Pos()), "the cleanup does not close the elements of the slot slice")
+		o.Fail(r.pos(defPos), "the cleanup does not close the elements of the slot slice")
 	} else {
 		if !loopEff.OnError {
 			good = false
-			o.Fail(r.pos(def.Pos()), "the cleanup closes the readers even when the function succeeds (they belong to the merged iterator then)")
+			o.Fail(r.pos(defPos), "the cleanup closes the readers even when the function succeeds (they belong to the merged iterator then)")
 		}
 		// the closed slice is the slot slice the goroutines fill
 		_ = mc
@@ -259,6 +310,6 @@ func ruleSelectLogsCleanup(r *Run) {
 		o.Fail(r.pos(fn.Pos()), "the opened readers are not all handed to the merged iterator")
 	}
 	if good {
-		o.OK("%s: defer (before Go): if rerr != nil, range all slots, close non-nil; success: newMergeIter(iters)", shortFuncName(fn)).At(r.pos(def.Pos()))
+		o.OK("%s: cleanup on failure only (deferred before Go, or explicit on every failure exit): range all slots, close non-nil; success: newMergeIter(iters)", shortFuncName(fn)).At(r.pos(defPos))
 	}
 }
